@@ -265,8 +265,11 @@ def render_def(name, d, prog, pkg):
                 # `module.func(...)` compiles differently in a module file (where the compiler sees the import and
                 # skips the method-call optimisation) and in a separately compiled definition (exec / notebook cell):
                 # bind the attribute first so that the bytecode is the same however the definition is delivered
-                L.append("    _t = %s" % expr)
-                expr = "_t"
+                # the local variable is named like the attribute (`h1 = aux.h1`): a local name equal to a *component* of a
+                # dotted reference does not make the reference local
+                loc = t if (len(t) + d["const"]) % 2 == 0 else "_t"
+                L.append("    %s = %s" % (loc, expr))
+                expr = loc
             if form == "chained":
                 L.append("    r.append(_box(%s(x - 1) if x > 0 else None).val)" % expr)
             else:
